@@ -201,7 +201,7 @@ Lemma mv_K sid a b st : mv None a b -> SI a -> K sid a st ->
 Proof.
   intros M HS HK. remember None as o eqn:EO. destruct M; try discriminate EO.
   - (* lite *)
-    destruct H0 as [SC (l & E & F)]. unfold same_core in SC. decompose [and] SC.
+    destruct H0 as (SC & (l & E & F) & _). unfold same_core in SC. decompose [and] SC.
     eapply (K_same_live sid c c' st l); try eassumption.
     + eapply Forall_impl; [|exact F]. apply frame_quiet.
     + unfold live. congruence.
@@ -331,6 +331,9 @@ Proof.
     + rewrite sc_highestID_note. lia.
     + auto.
     + exact HK.
+  - (* post *)
+    destruct H0 as [SC EOut]. unfold same_core in SC. decompose [and] SC.
+    exists []. split; [assumption|]. cbn. destruct HK as [NB _]. split; [assumption|]. intro Hd. congruence.
 Qed.
 
 (* ---------- the return of a handler: the event, then the move ---------- *)
@@ -376,7 +379,7 @@ Proof.
   - (* the stream is in the table *)
     rename H1 into SS. rename H0 into L. rename H4 into Rold. rename H5 into Rx. rename H6 into Resp. destruct (strms_search_In _ _ _ SS) as [Iold Eid].
     destruct HK as [NB HJ]. specialize (HJ H).
-    destruct L as [SC (l & E & F)]. unfold same_core in SC. decompose [and] SC. clear SC.
+    destruct L as (SC & (l & E & F) & _). unfold same_core in SC. decompose [and] SC. clear SC.
     exists l. split; [rewrite sc_out_put; assumption|].
     cbn [own_run fold_left]. fold (own_run sid (map IOut (rev l)) (own_step sid st (IEv (EvDone (st_id x) r)))).
     rewrite own_quiet by (apply Forall_rev; eapply Forall_impl; [|exact F]; apply frame_quiet).
@@ -476,8 +479,7 @@ Lemma K_step sid c e st : SI c -> K sid c st ->
 Proof.
   intros HS HK.
   assert (SH := step_shape hstate dec_field enc_field enc_set_max cfg Q
-           (fun _ _ _ _ => I) (fun _ _ => I) (fun _ _ _ => I) (fun _ _ => I) (fun _ _ _ _ _ => I) (fun _ _ _ => I)
-           (fun _ _ _ => I) (fun _ _ _ _ _ _ _ _ _ => I) c e (SI_ids_ok _ _ _ _ HS)).
+           (QT_closed _ dec_field cfg) c e (SI_ids_ok _ _ _ _ HS)).
   assert (GEN : (forall sid0 r, e <> EvDone sid0 r) ->
                 (exists c0, omvs hstate (parser_code e) c c0 /\ mvs [] c0 (step c e)) ->
                 K sid (step c e) (own_run sid (IEv e :: map IOut (delta c (step c e))) st)).
@@ -512,7 +514,7 @@ Proof.
 Qed.
 
 Lemma SI_step_T c e : SI c -> SI (step c e).
-Proof. apply SI_step; intros; exact I. Qed.
+Proof. apply SI_step. apply QT_closed. Qed.
 
 Theorem own_safe_from sid evs : forall c st, SI c -> K sid c st -> own_run sid (log_from c evs) st <> Bad.
 Proof.
